@@ -14,6 +14,7 @@ A property runner picks the facet (the key of the driver's answer) it decides.
 """
 import glob
 import json
+import re
 import os
 
 import emodify
@@ -135,6 +136,25 @@ def c03_known(case, o, issue):
     return None
 
 
+def patch_refs(asm):
+    """[symbol, addend] for every symbolic operand the patch text names (x86-64 AT&T forms the generators use)"""
+    out = []
+    for line in asm.splitlines():
+        t = line.strip()
+        m = re.fullmatch(r"(?:call|jmp|jne|je)\s+([A-Za-z_.$][\w.$]*)", t)
+        if m:
+            out.append([m.group(1), 0])
+            continue
+        m = re.search(r"([A-Za-z_.$][\w.$]*)([+-]\d+)?\(%rip\)", t)
+        if m:
+            out.append([m.group(1), int(m.group(2) or 0)])
+            continue
+        m = re.fullmatch(r"\.quad\s+([A-Za-z_.$][\w.$]*)([+-]\d+)?", t)
+        if m:
+            out.append([m.group(1), int(m.group(2) or 0)])
+    return out
+
+
 class Campaign:
     def __init__(self, ctx, facet, with_corr=True):
         self.ctx = ctx
@@ -178,6 +198,25 @@ class Campaign:
             ctx.mismatch("the recorded insert/delete calls cannot be paired with the registered requests", case)
             return
         ctx.count("applied")
+        if self.facet == "C01":
+            for e in o["edits"]:
+                if e.get("_foreign_bytes"):
+                    src = case["edits"][e["order"]]
+                    ctx.violation("C01:requests-at-one-place-out-of-registration-order",
+                                  "the operation applied for request %d (%r at block %d offset %d) carries the bytes of another request: requests at one offset are not applied in registration order"
+                                  % (e["order"], src.get("asm"), src["block"], src["off"]), case)
+                    break
+        if self.facet == "C04":
+            # what the patch text says about its own symbolic operands, against what was spliced in
+            for e in o["edits"]:
+                src = case["edits"][e["order"]] if e.get("order") is not None and e["order"] < len(case["edits"]) else {}
+                if "asm" not in src:
+                    continue
+                want = sorted(patch_refs(src["asm"]))
+                got = sorted([re.sub(r"^(\.L\w+?)_\d+$", r"\1", x[1]), x[2]] for x in e["exprs"])
+                ctx.count("patch-operands", len(want))
+                if want != got:
+                    ctx.violation("C04:patch-operand", "patch %r: symbolic operands %s, the text says %s" % (src["asm"], got, want), case)
         if self.facet == "C03":
             if emodify.runs_off_end(case):
                 ctx.count("out-of-domain:code-runs-off-the-end")
